@@ -164,6 +164,12 @@ let handle (s : sexp) : string = match s with
   | L [A "p2cq"; p] -> sl sq (p2c_q false (list_of q_of p))
   | L [A "fpslayout"; alpha] -> sl sq (fps_layout_q (list_of q_of alpha))
   | L [A "fpprob"; phis; pts] -> sl (so sz) (fp_prob_dists (list_of q_of phis) (list_of (pair_of q_of) pts))
+  | L [A "trigacc"; mono; usesin; c; s; tau; cells; eps] ->
+      let cells = list_of (pair_of q_of) cells and c = list_of q_of c in
+      sb (if bool_of mono then check_trig_acc_mono (bool_of usesin) c (q_of s) (q_of tau) cells (q_of eps)
+          else check_trig_acc (bool_of usesin) c (q_of s) (q_of tau) cells (q_of eps))
+  | L [A "invacc"; c; s; kappa; thmax; cells; tol] ->
+      sb (check_inv_acc_scaled (list_of q_of c) (q_of s) (q_of kappa) (q_of thmax) (list_of (pair_of q_of) cells) (q_of tol))
   | L [A "scale"] -> sz scaleZ
   | _ -> failwith "unknown command"
 
